@@ -8,18 +8,26 @@
 (* harness reads the positions printed below).  A run that leaves the domain of the statement   *)
 (* (pc = "unspec": fewer good points left than a fit needs) is reported as such, not judged.     *)
 (*                                                                                               *)
-(* Trace (JSON object): n, perm, cpos, lower, upper, band, maxiter, mingood, tol, outliers,      *)
-(* events.  Points are named by their rank in (x, y) order; the harness's abstraction maps the   *)
+(* Trace (JSON object): n, perm, cpos, lower, upper, band, maxiter, mingood, nbk, tol, outliers, *)
+(* events.  Breakpoints are named by their index (1..nbk) in the breakpoint array of the object  *)
+(* iterfit builds; "in effect" = not masked.  Points are named by their rank in (x, y) order; the harness's abstraction maps the   *)
 (* arrays the collaborators receive to ranks by matching (x, y) pairs.                           *)
 (*   fit    : mask (ranks given positive weight), st (status returned), args (TRUE iff x was     *)
 (*            non-decreasing, every (x, y) pair was a data point and every positively weighted   *)
-(*            point carried its own inverse variance)                                            *)
+(*            point carried its own inverse variance), bk0 / bk (breakpoints in effect when the  *)
+(*            fit was called / when it returned)                                                 *)
 (*   reject : inm (ranks of inmask), out (ranks of the mask returned), qd (qdone returned),      *)
 (*            z (the ORACLE: scaled residual of every point from the independent least-squares   *)
-(*            fit to the set the machine says was fitted last; unit = that of lower / upper)     *)
+(*            fit to the set the machine says was fitted last; unit = that of lower / upper),    *)
+(*            zbk (the breakpoints that independent fit was made on: those the fit just made      *)
+(*            left in effect - the machine refuses an oracle for any other set)                   *)
 (*   return : outmask (caller positions flagged True), cdiff (discrepancy between the returned   *)
-(*            curve and the independent fit to the last set fitted, same unit), hasref, refpts,  *)
-(*            refcurve, pdiff (result of the first run of the same data in another order)        *)
+(*            curve and the independent fit to the last set fitted, same unit), cbk (the         *)
+(*            breakpoints that independent fit was made on), retbk (the breakpoints in effect in  *)
+(*            the returned object), hasref, refpts, refcurve, pdiff (result of the first run of   *)
+(*            the same data in another order)                                                    *)
+(* A run whose last fit only dropped breakpoints (budget used up before anything was solved on    *)
+(* the reduced set) hands back no solved curve: the mask is judged, the curve is not.             *)
 EXTENDS IterFit, Json, IOUtils, SequencesExt, TLC
 Traces == JsonDeserialize(IOEnv.VERIF_TRACE)
 UseDev == "VERIF_DEV" \in DOMAIN IOEnv /\ IOEnv.VERIF_DEV = "D-C10-1"
@@ -28,7 +36,7 @@ VARIABLES tid, pos
 T  == Traces[tid]
 Ev == T.events[pos]
 ProbOf(t) == [n |-> t.n, perm |-> t.perm, cpos |-> ToSet(t.cpos), lower |-> t.lower, upper |-> t.upper,
-              band |-> t.band, maxiter |-> t.maxiter, mingood |-> t.mingood]
+              band |-> t.band, maxiter |-> t.maxiter, mingood |-> t.mingood, nbk |-> t.nbk]
 
 Init == \E i \in 1..Len(Traces) :
           /\ tid = i /\ pos = 1
@@ -38,12 +46,14 @@ Init == \E i \in 1..Len(Traces) :
 TFit == /\ Ev.a = "fit"
         /\ Ev.args
         /\ ToSet(Ev.mask) = work
-        /\ Fit(Ev.st)
+        /\ ToSet(Ev.bk0) = bk                         \* nobody touched the breakpoints between two fits
+        /\ ToSet(Ev.bk) \subseteq bk
+        /\ Fit(Ev.st, bk \ ToSet(Ev.bk))
 
 TReject == /\ Ev.a = "reject"
            /\ ToSet(Ev.inm) = work
            /\ ToSet(Ev.out) \subseteq work
-           /\ Reject(Ev.z, work \ ToSet(Ev.out))
+           /\ Reject(Ev.z, work \ ToSet(Ev.out), ToSet(Ev.zbk))
            /\ Ev.qd = qdone'
 
 (* the curve handed back is the fit to the last set fitted; the mask is in the caller's order;   *)
@@ -52,12 +62,13 @@ TReject == /\ Ev.a = "reject"
 TReturn == /\ Ev.a = "return"
            /\ Return
            /\ ToSet(Ev.outmask) = outmask
-           /\ Ev.cdiff <= T.tol
+           /\ ToSet(Ev.retbk) = bk
+           /\ status = 0 => (ToSet(Ev.cbk) = curveBk /\ Ev.cdiff <= T.tol)
            /\ prob.maxiter >= 1 => /\ ToSet(T.outliers) \cap work = {}
                                    /\ UseDev \/ ToSet(T.outliers) \cap curveOf = {}   \* (what the deviation costs)
            /\ Ev.hasref => /\ ToSet(Ev.refpts) = work
                            /\ ToSet(Ev.refcurve) = curveOf
-                           /\ Ev.pdiff <= T.tol
+                           /\ status = 0 => Ev.pdiff <= T.tol
 
 Observe == TFit \/ TReject \/ TReturn
 Internal == Sort \/ (IF UseDev THEN Dev_StopsAfterFirstReject ELSE LoopOrExit) \/ Unsort \/ SkipReject
@@ -73,4 +84,7 @@ T_MaskInCallerOrder == MaskInCallerOrder
 T_ReturnedCurveIsLastFit == ReturnedCurveIsLastFit
 T_WithinBudget == WithinBudget
 T_RejectedStayOut == RejectedStayOut
+T_BreakpointsOnlyShrink == BreakpointsOnlyShrink
+T_ResidualsOnBreakpointsInEffect == ResidualsOnBreakpointsInEffect
+T_ReturnedCurveOnReturnedBreakpoints == ReturnedCurveOnReturnedBreakpoints
 =============================================================================
